@@ -14,6 +14,7 @@ def dispatch (c : J) : Res :=
   | "apply" => handleApply c
   | "sync" => handleSync c
   | "hookcalls" => handleHookCalls c
+  | "hookexec" => handleHookExec c
   | "rounds" => handleRounds c
   | "event" => handleEvent c
   | "informer" => handleInformer c
